@@ -4,6 +4,7 @@
 (* `case` lists the damage applied to a copy (kind, offset, the region and position hit) and what every      *)
 (* reader operation did with it.  Damage.tla says what a reader may do.                                       *)
 EXTENDS Damage, TLCExt, Json, IOUtils
+CONSTANT Dev          \* open findings admitted (known_findings.json): {"FinalBlockSteersStore"} or {}
 Rec == ndJsonDeserialize(IOEnv.TRACE)
 VARIABLES l, lay, seen
 vars == <<l, lay, seen>>
@@ -29,8 +30,11 @@ Case == /\ Is("case")
              THEN G("an overwrite with the byte already there changes nothing", Unchanged(op))
              ELSE /\ G("a reader of a damaged file does not panic (C09)", Terminates(op))
                   /\ (Judged(Ev.file, op) =>
-                        /\ G("what a reader hands out before failing is genuine (C09)", HandsOut(op) => op.exact)
-                        /\ G("a reader of a damaged file fails or returns exactly the pristine data (C09)", Sound(Ev.file, Ev.dmgs, op)))
+                        /\ G("what a reader hands out before failing is genuine (C09)",
+                             (HandsOut(op) => op.exact) \/ ("FinalBlockSteersStore" \in Dev /\ FinalBlockSteersStore(Ev.file, Ev.dmgs, op)))
+                        /\ IF "FinalBlockSteersStore" \in Dev /\ ~Sound(Ev.file, Ev.dmgs, op) /\ FinalBlockSteersStore(Ev.file, Ev.dmgs, op)
+                           THEN Print(<<"DEV-USED", "FinalBlockSteersStore", "line", l>>, TRUE)
+                           ELSE G("a reader of a damaged file fails or returns exactly the pristine data (C09)", Sound(Ev.file, Ev.dmgs, op)))
         \* coverage: which (region kind, damage kind, noticed?) classes the campaign reached
         /\ seen' = seen \cup {<<Ev.dmgs[1].rkind, Ev.dmgs[1].kind, Noticed(Ev.ops)>>}
         /\ UNCHANGED lay
